@@ -24,6 +24,10 @@ CHECKS = {
   text="Coq theorems over a model of OPEN validation and negotiation (ValidateOpenMsg, getASN, open2Cap incl. ADD-PATH squashing, the Established branch of stateChange, keepaliveTicker, capabilitiesFromConfig/buildopen), for every local configuration and every received OPEN: acceptance conditions and the NOTIFICATION per refusal kind; hold = min; keepalive rule and no ticker at hold 0; negotiated families = configured intersect announced (no MP capability = IPv4 unicast), one entry per family, ADD-PATH send/receive only with the complementary remote direction, last tuple wins; 2-octet encoding iff the peer lacks the 4-octet capability; extended messages iff the peer announced them; peer kind from the announced AS; the OPEN sent reflects the configuration (AS_TRANS, real AS in the capability). Tie: differential execution of the real fsm functions on 8k generated (configuration, OPEN) pairs, the OPEN passing through Serialize+Parse, plus a Python restatement of the property as direct oracle.",
   note="Trusted: Coq kernel; model, extraction, harness (pkg/server overlay hook calls handleOpen/stateChange on a fresh fsm with a stub connection); the options handed to ParseBGPBody/Serialize are read from the same fsm fields the hook reports (familyMap, twoByteAsTrans, extendedMessage); FQDN hostname, LLGR tuples and HelperOnly are not modelled. No axioms.",
   tech="Coq proof (case analysis / list reasoning over capability lists) + differential correspondence", ref="DESIGN.md 5/C08"),
+ "C13": dict(
+  text="Coq development over (i) a regular-expression core with relational semantics and a Brzozowski-derivative matcher proved equivalent, (ii) decimal rendering/parsing with round-trip lemmas, (iii) a model of the community-matcher compiler that, like the Go code, analyses the printed pattern TEXT: for every well-formed pattern and every community, the Exact, fixed-AS wildcard, fixed-AS bitmap and regexp modes decide exactly what an unanchored regexp search on 'AS:local' decides (print-inversion proofs: a plain-character prefix of a printed pattern consists of unquantified literal pieces); and the condition level (ANY/INVERT index fast path, general loop, ALL) equals the plain double loop over the regular expressions for every pattern list, community list and option. PARTIAL: the wildcard-AS finite-set mode enters the combined theorem as a named hypothesis, and ext-community matchers and the Append/Remove/Replace edits are decided by the direct oracle only. Tie: real CommunitySet/ExtCommunitySet objects built through the config constructors and edits vs the model (4k pattern-list x community cases quick) and vs Go regexp.MatchString on the canonical text (direct oracle), which also validates the model's regexp semantics and printer against RE2.",
+  note="Trusted: Coq kernel; model, extraction, harness; Go's parse of the printed pattern text is assumed to denote the model's AST (validated by comparing Go regexp results with the model's on every case); hasTopLevelAlternation is modelled as 'more than one top-level alternative' (Go's prefix factoring can only move a pattern between two correct modes). No axioms.",
+  tech="Coq proof (regexp semantics, derivative matcher correctness, print inversion, index/loop refinement) + differential correspondence + regexp direct oracle", ref="DESIGN.md 5/C13"),
 }
 
 NOT_APPLICABLE = {}
